@@ -544,8 +544,42 @@ class UPair(UExpr):
     r: UExpr
 
 
-def units_grammar():
-    return extract_grammar([ULen, UPair], UExpr)
+class UOp(ABC):
+    pass
+
+
+@dataclass
+class UPlus(UOp):
+    pass
+
+
+@dataclass
+class UMinus(UOp):
+    pass
+
+
+@dataclass
+class UTimes(UOp):
+    pass
+
+
+from typing import Union  # noqa: E402
+from geneticengine.grammar.metahandlers.floats import FloatRange  # noqa: E402
+
+
+@dataclass
+class UBin(UExpr):
+    """a Union one of whose alternatives is refined by a Dependent on an EARLIER SIBLING; a slot of an abstract type restricted to some of
+    its (field-less) productions by a refinement"""
+    lo: Annotated[int, IntRange(0, 3)]
+    hi: Union[Annotated[int, Dependent("lo", lambda lo: IntRange(lo, lo + 2))], Annotated[float, FloatRange(0.0, 1.0)]]
+    op: Annotated[UOp, VarRange([UPlus(), UMinus()])]
+    any_op: UOp
+    e: UExpr
+
+
+def units_grammar(expansion: bool = False):
+    return extract_grammar([ULen, UPair, UBin, UPlus, UMinus, UTimes], UExpr, expansion)
 
 
 def units_type_errors(e, out=None) -> list:
@@ -560,6 +594,19 @@ def units_type_errors(e, out=None) -> list:
         for f, ty in (("unit", str), ("width", int), ("size", int), ("label", str)):
             if type(getattr(e, f)) is not ty:
                 out.append(f"ULen.{f} holds {getattr(e, f)!r} where {ty.__name__} is declared")
+    elif isinstance(e, UBin):
+        if type(e.lo) is not int:
+            out.append(f"UBin.lo holds {e.lo!r} where int is declared")
+        if type(e.hi) not in (int, float):
+            out.append(f"UBin.hi holds {e.hi!r} where Union[int, float] is declared")
+        if type(e.op) not in (UPlus, UMinus):
+            out.append(f"UBin.op holds {e.op!r} where a UPlus or UMinus is declared")
+        if type(e.any_op) not in (UPlus, UMinus, UTimes):
+            out.append(f"UBin.any_op holds {e.any_op!r} where a production of UOp is declared")
+        if not isinstance(e.e, UExpr):
+            out.append(f"UBin.e holds {e.e!r} where a production of UExpr is declared")
+        else:
+            units_type_errors(e.e, out)
     else:
         out.append(f"{e!r} is not a production of UExpr")
     return out
